@@ -11,6 +11,12 @@
 (*   Hdr    = [key : STRING, values : Seq(Str), re : RE]                                         *)
 (*   req    = [host, m, path : Str, hdr : [key -> Str] (absent key = absent header = ""),        *)
 (*             ip : Addr]                                                                        *)
+(*             m is the method token as sent: any string, not only one of the nine methods a     *)
+(*             configuration may list (PURGE, PROPFIND, lower-case "get" are requests too; an    *)
+(*             entry with a method list matches exactly the listed tokens).                      *)
+(*             path is the DECODED request path (URL.Path).  '%' is an ordinary character of it: *)
+(*             a client that sends /a/%2562 asks for the path /a/%62, and matching and rewriting *)
+(*             work on that string and never decode it again.                                    *)
 (*   outcome= [code, be, path]: code 0 = dispatched to backend `be`, which sees `path`;          *)
 (*             otherwise the HTTP status sent to the client (be = "", path = <<>>)               *)
 (*                                                                                              *)
@@ -22,6 +28,9 @@
 (*                      filter, then the filter of every host-matching rule up to the owning    *)
 (*                      one, then the owning entry's filter                                      *)
 (*   C05OK(cfg,q,o,o0)  C05 readings (i)-(ii) of an observed outcome o (o0: filter-less twin)      *)
+(*   C05iiiOf(..,o,ou)  C05 reading (iii): whether the filter of a host-matching rule that was   *)
+(*                      passed over on the way to the route "applies" is left to the server, but *)
+(*                      not to its cache or its history (ou: the cache-less server's answer)     *)
 (*                                                                                              *)
 (* IMPLEMENTATION-SHAPED LAYER (what mux.go does)                                               *)
 (*   SearchMiss         the two nested loops with the headerMismatch / methodMismatch flags,    *)
@@ -145,7 +154,14 @@ RefOutcome(cfg, q) == Dispatch(cfg, RefRoute(cfg, q), q)
 (* (ii) allowed by every filter configured anywhere on the server => routed exactly as if no    *)
 (*      filter existed: o = o0, or o = what the routing rules say (C01) - the second disjunct    *)
 (*      keeps a routing defect of the filter-less twin itself (a C12 matter) out of C05;         *)
-(* (iii) otherwise (denied only by a filter that does not apply to the route): unconstrained.   *)
+(* (iii) denied by none of the filters of (i) but by the rule-level filter of a host-matching    *)
+(*      rule standing ahead of the rule that owns the route (a rule the request matches, but     *)
+(*      which has no entry for it): the text can be read either way ("the rule-level filter      *)
+(*      applying to it" = of the owning rule only, or of every rule the request's host matches   *)
+(*      on the way).  Whichever reading the server implements - the one its cache-less search    *)
+(*      shows - must hold "with or without the route cache and whatever requests preceded it":   *)
+(*      the request reaches a backend with the cache (after any history) iff it does without.    *)
+(* (iv) otherwise (denied only by a filter that does not apply to the route): unconstrained.     *)
 AllFilters(cfg) ==
     {cfg.ipf} \cup {cfg.rules[i].ipf : i \in DOMAIN cfg.rules} \cup {EntryAt(cfg, p).ipf : p \in Positions(cfg)}
 Strip(cfg) ==
@@ -163,6 +179,11 @@ C05iOf(cfg, q, o, rs) ==
     DeniedApplyingOf(cfg, q, rs) => /\ o.code >= 400 /\ o.code <= 499
                                     /\ (rs.code = 0 => o.code = 403)
 C05iiOf(cfg, q, o, o0, rs) == AllowedEverywhere(cfg, q) => (o = o0 \/ o = Dispatch(cfg, rs, q))
+DeniedPassedOf(cfg, q, rs) ==                                                  \* rs = RouteSpec(cfg, q)
+    LET before == IF rs.code = 0 THEN rs.pos[1] - 1 ELSE Len(cfg.rules)
+    IN \E i \in 1..before : RuleMatches(cfg.rules[i], q) /\ Denied(cfg.rules[i].ipf, q.ip)
+AmbiguousOf(cfg, q, rs) == ~DeniedApplyingOf(cfg, q, rs) /\ DeniedPassedOf(cfg, q, rs)
+C05iiiOf(cfg, q, o, ou, rs) == AmbiguousOf(cfg, q, rs) => ((o.code = 0) <=> (ou.code = 0))
 C05OKOf(cfg, q, o, o0, rs) == C05iOf(cfg, q, o, rs) /\ C05iiOf(cfg, q, o, o0, rs)
 C05OK(cfg, q, o, o0) == C05OKOf(cfg, q, o, o0, RouteSpec(cfg, q))
 
@@ -270,11 +291,15 @@ Request(q) ==
            impl0 == IF Twin THEN Dispatch(cfg0, s0.res, q) ELSE Dispatch(cfg, rs, q)
            den == DeniedApplyingOf(cfg, q, rs)
            all == AllowedEverywhere(cfg, q)
+           amb == AmbiguousOf(cfg, q, rs)
+           \* the same server without cache (and hence without history)
+           implU == IF CacheOn THEN Dispatch(cfg, SearchMiss(cfg, q).res, q) ELSE impl
        IN /\ cache' = Stored(cache, q, s.put)
           /\ cache0' = IF Twin THEN Stored(cache0, q, s0.put) ELSE cache0
           /\ last' = [a |-> "req", q |-> q, exp |-> exp, impl |-> impl, impl0 |-> impl0,
-                      own |-> rs, c01 |-> Dispatch(cfg, rs, q), den |-> den, all |-> all,
+                      own |-> rs, c01 |-> Dispatch(cfg, rs, q), den |-> den, all |-> all, amb |-> amb,
                       c05i |-> C05iOf(cfg, q, impl, rs), c05ii |-> C05iiOf(cfg, q, impl, impl0, rs),
+                      c05iii |-> C05iiiOf(cfg, q, impl, implU, rs),
                       why |-> IF impl = exp THEN "" ELSE Why(q, s, rs)]
 
 (* the ARC cache may drop any entry at any time (of either server) *)
@@ -302,10 +327,11 @@ IsReq == last'.a = "req"
 (* C01 / C12: the implementation-shaped search (with or without cache, after any history and    *)
 (* any evictions) answers what the reference says *)
 Transparent == [][IsReq => last'.impl = last'.exp]_vars
-(* C05 (i)-(ii); run with Twin = TRUE when the cache is on *)
-IPFilterRespected == [][IsReq => (last'.c05i /\ last'.c05ii)]_vars
+(* C05 (i)-(iii); run with Twin = TRUE when the cache is on *)
+IPFilterRespected == [][IsReq => (last'.c05i /\ last'.c05ii /\ last'.c05iii)]_vars
 DeniedNeverDispatched == [][IsReq => last'.c05i]_vars
 AllowedUnaffected == [][IsReq => last'.c05ii]_vars
+PassedFilterHistoryFree == [][IsReq => last'.c05iii]_vars
 (* the reference is C01's outcome whenever the client is allowed by every filter (in particular *)
 (* when there is no filter) *)
 RefIsC01 == [][(IsReq /\ AllowedEverywhere(cfg, last'.q)) => last'.exp = Dispatch(cfg, last'.own, last'.q)]_vars
